@@ -950,6 +950,7 @@ struct Engine
         std::size_t cap[2]{0, 0};
         std::size_t size[2]{0, 0};
         long block[2]{-1, -1};
+        std::size_t consumed[2]{0, 0};  // bytes of the data block as the allocator recorded them
         std::map<std::tuple<int, int, int, int>, uintptr_t> obj;  // (slot, elem id, field, pos) -> address
         std::string canon;
     };
@@ -966,7 +967,11 @@ struct Engine
             s.data_begin[t] = reinterpret_cast<uintptr_t>(vv.data_begin());
             s.cap[t] = vv.capacity();
             s.size[t] = vv.size();
-            if (const Block* b = find_block(s.data_begin[t], true)) s.block[t] = static_cast<long>(b->serial);
+            if (const Block* b = find_block(s.data_begin[t], true))
+            {
+                s.block[t] = static_cast<long>(b->serial);
+                s.consumed[t] = b->bytes;
+            }
             const std::size_t n = std::min(m[t].el.size(), vv.size());
             for (std::size_t i = 0; i < n; ++i)
             {
@@ -1078,6 +1083,39 @@ struct Engine
                 break;
             default:
                 break;
+        }
+        // C05 footprint clause: the target consumes at most max(before, source, fresh vector of the same
+        // capacity and payload budget) - the third term is obtained by constructing that fresh vector
+        {
+            int target = -1, source = -1;
+            if (o.k == O_RS) target = t;
+            if (o.k == O_CC || o.k == O_CA || o.k == O_MC || o.k == O_MA)
+            {
+                source = o.a[0];
+                target = o.a[1];
+            }
+            if (target >= 0 && target != source && post.present[target] && !post.moved[target])
+            {
+                std::size_t bound = pre.present[target] && !pre.moved[target] ? pre.consumed[target] : 0;
+                if (source >= 0) bound = std::max(bound, pre.consumed[source]);
+                std::size_t fresh = 0;
+                {
+                    L().in_lib = true;
+                    Vec tmp = make_temp(m[target].cap, m[target].budget, m[target].fixed, m[target].arena);
+                    L().in_lib = false;
+                    if (const Block* b = find_block(reinterpret_cast<uintptr_t>(tmp.data_begin()), true)) fresh = b->bytes;
+                }
+                bound = std::max(bound, fresh);
+                if (post.consumed[target] > bound)
+                    report("C05", "footprint",
+                           (source >= 0 && LS::AMAX > 1 && post.consumed[target] == pre.consumed[source] * LS::AMAX)
+                               ? "grows-beyond-bound:source-bytes-taken-as-units"
+                               : "grows-beyond-bound",
+                           "%s: the vector now consumes %zu bytes; before %zu, source %zu, fresh vector with the same "
+                           "capacity and budget %zu",
+                           OP_NAMES[o.k], post.consumed[target], pre.present[target] ? pre.consumed[target] : 0,
+                           source >= 0 ? pre.consumed[source] : 0, fresh);
+            }
         }
         if (o.k == O_RS)
         {
